@@ -128,6 +128,18 @@ END''', [Hole("A01", "name"), Hole("H02"), Hole("A03", "name"), Hole("H04"), Hol
          Hole("A07", "name"), Hole("H08"), Hole("A09", "name"), Hole("H10"), Hole("A11", "name"), Hole("A12", "name"),
          Hole("A13", "name"), Hole("A14", "name")])
 
+SK["escaped"] = ('''LAYER
+  NAME "H01"
+  DATA "H02"
+  CLASS
+    NAME "H03"
+    TEXT "H04"
+  END
+  METADATA
+    "k" "H05"
+  END
+END''', [Hole("H01", "esc", 1), Hole("H02", "esc", 0), Hole("H03"), Hole("H04", "esc", 1, multi=True), Hole("H05", "esc", 0)])
+
 INFO = {
     "explanation": "C01: template-symbolic pipeline. The real scanner runs concretely on each skeleton; hole tokens (string contents, attribute names) get "
                    "symbolic values of the same lexical class; the real Parser.parse loop, LALR tables, MapfileTransformer, CaseInsensitiveOrderedDict, "
@@ -138,7 +150,7 @@ INFO = {
     "functions": ["mappyfile.parser.Parser.parse", "lark LALR driver on mappyfile's table", "mappyfile.transformer.MapfileTransformer.*", "mappyfile.transformer.MapfileToDict.transform",
                   "mappyfile.pprint.PrettyPrinter._format", "mappyfile.quoter.Quoter.*", "mappyfile.utils.loads", "mappyfile.utils.dumps"],
     "bounds": {"string_holes": "quick 2 / thorough 4 code points, 32..0x2FFF without quotes and backslash, not starting with '#'",
-               "names": "2 characters [a-z][a-z0-9_]", "skeletons": "3 structural + 19 schema-generated (one per object type, every simple keyword slot)"},
+               "names": "2 characters [a-z][a-z0-9_]", "skeletons": "4 structural (one with backslash-escaped quotes inside and at the end of strings) + 19 schema-generated (one per object type, every simple keyword slot)"},
     "outside": ["strings containing a quote character; strings of multi-alternative keywords that look like expressions (documented exclusions)",
                 "strings ending in a backslash (known finding KF-C01-TRAILING-BACKSLASH) and hex-colour-shaped strings (a different token class)",
                 "texts larger than the skeletons (blocks interact only through composite's key handling, covered by C02)", "INCLUDE (C15)"],
@@ -189,7 +201,7 @@ def obligations(tier, seed):
                   expect_cex=True, meta={"desc": "quoted string whose content ends in a backslash: the closing quote is read as an escaped quote", "functions": ["DOUBLE_QUOTED_STRING"]}))
     for name, (text, holes) in skeletons(tier).items():
         for h in holes:
-            if h.kind != "name":
+            if h.kind not in ("name", "esc"):
                 h.L = L
         popts = {"expand_includes": False} if name.startswith("schema.") else {}
         src, params, pre = rt_source(text, holes, idem=True, popts=popts)
